@@ -45,3 +45,5 @@ pub open spec fn ipow(b: int, e: nat) -> int decreases e { if e == 0 { 1 } else 
 pub assume_specification [<i32>::pow] (a: i32, e: u32) -> (r: i32)
     requires i32::MIN <= ipow(a as int, e as nat) <= i32::MAX,
     ensures r == ipow(a as int, e as nat);
+pub assume_specification [<i32>::unsigned_abs] (a: i32) -> (r: u32)
+    ensures r == (if a < 0 { -(a as int) } else { a as int });
